@@ -73,6 +73,15 @@ def gen_spec(rng):
     comments = {k: rng.choice(['nobody@example.org', 'NASA DC-8', 'R0', 'see header',
                                'value: with colon', 'x', '', '  ', 'N/A'])
                 for k in rng.sample(COMMENTS, ncom)}
+    if rng.random() < 0.2:
+        # detection-limit comments: a flag and one value, one value per dependent
+        # variable, or a list of another length (a column was dropped from a merge)
+        for lod, flag in rng.sample([('LLOD', '-8888'), ('ULOD', '-7777')], rng.randrange(1, 3)):
+            comments[lod + '_FLAG'] = flag
+            comments[lod + '_VALUE'] = rng.choice(
+                ['N/A', '0.5', ', '.join('%g' % (0.5 + i) for i in range(nv)),
+                 ', '.join('%g' % (0.5 + i) for i in range(nv + 1)),
+                 ', '.join('%g' % (0.5 + i) for i in range(max(2, nv - 1) if nv != 3 else 4))])
     t0 = rng.choice([0, 43200, 86399, 3600])
     return {'nrec': nrec, 'vars': vars_, 'comments': comments,
             'date': rng.choice(['2004, 07, 15', '1999, 12, 31', '2012, 02, 29']),
@@ -253,7 +262,8 @@ def gen_op(rng, st):
     ops = []
     if rng.random() < 0.5:
         ops.append({'op': 'clock_jump', 'seconds': rng.choice([1, 86400, 31622400, -3600])})
-    suffix = rng.choice(['ffi1001', 'ict', 'ict', 'txt', ''])
+    # (some suffixes are names of other readers: the content decides, not the name)
+    suffix = rng.choice(['ffi1001', 'ict', 'ict', 'txt', '', 'csv', 'dat', 'wind', 'geos'])
     ops.append({'op': 'write', 'cid': cid, 'spec': gen_spec(rng),
                 'file': ('w%d.%s' % (cid, suffix)) if suffix else 'w%d' % cid})
     ops.append({'op': 'judge', 'cid': cid, 'which': 'ack', 'how': rng.choice(['explicit', 'auto', 'auto', 'auto-pathlike'])})
